@@ -25,6 +25,10 @@ CHECKS = {
    text="For generated schemas (pandas DataFrameSchema/SeriesSchema/Column, model-backed cached schemas, polars schemas and models) a generated history of 4-12 non-transforming public operations (validate pass / eager fail / lazy fail / subsampled, coerce, to_yaml/json/script, statistics, strategy/example, str/repr/==, deepcopy/pickle, transforming methods watched on the receiver) is executed on ONE schema object; after every operation the structural fingerprint and == against a snapshot are compared, and periodically the verdict vector on probe frames is compared with a pristine twin.",
    note="Fingerprint walks __dict__ of every pandera object reachable from the schema (pvm/fingerprint.py); module-global state only seen through verdicts; histories <= 12 ops; model index fields unreachable in this sandbox.",
    ref="4/C05"),
+ "C06": dict(cat="fault_enumeration", tech="error-channel boundary monitor on every real validate call + enumeration of an injected exception at every k-th invocation of every user callback, with schema fingerprint / config / input snapshot compared before and after",
+   text="Part A runs the real pandas and polars validate on ~7 k (quick) / ~200 k (thorough) generated hostile schema/data/option combinations and requires every outcome to be a return, SchemaError/SchemaErrors, SchemaDefinitionError/SchemaInitError, or TypeError/BackendNotFoundError for a non-dataframe argument. Part B counts the invocations of every user callback of callback-dense schemas (vectorised, element-wise, groupby and frame checks, groupby functions, parsers, custom DataType.check/coerce) and re-runs the call with an exception injected at each k-th invocation (all k when N <= 64; ~3.4 k fault points in quick); a raising check must be reported as CHECK_ERROR, and schema fingerprint, config context and input snapshot afterwards must equal those before.",
+   note="pandas and polars backends; frames <= 6x7; injected exceptions derive from Exception. Not judged: BackendNotFoundError vs TypeError for non-dataframe arguments; the deliberate, test-pinned IndexError for a regex name that does not fit the column levels; polars SCHEMA_ONLY lazy-cast failures at materialisation (documented lazy semantics); sample= larger than the remaining population; what a raising check does under drop_invalid_rows when a frame is returned. State after a non-failing call belongs to C04/C05.",
+   ref="4/C06"),
  "C07": dict(cat="exploration", tech="deterministic thread scheduler on sys.monitoring LINE events (token hand-over between pandera statements) + per-thread outcome oracle vs solo run + config/schema fingerprints after join",
    text="2-3 threads run real validate calls (shared pandas schema with coerce / frame dtype / regex columns, different schemas, polars DataFrame and LazyFrame, polars validate beside a user config_context, first use of a DataFrameModel, first use of the backend registry) under a scheduler that preempts only between two Python statements of pandera code: systematic single preemption in both directions, a grid of double preemptions and seeded random switching; every thread's outcome must equal its solo outcome bit-for-bit and config context, CONFIG and every schema fingerprint after join must equal those before. The evidence lists distinct executed interleavings and yield points.",
    note="Preemption points are a subset of real GIL switch points (no impossible interleaving); races inside a single pandas/polars call are not explored; 2-3 threads, frames <= 5 rows.",
